@@ -256,7 +256,9 @@ func c06Case(c *runner.Ctx, idx uint64) {
 		vm.MemoryBudget = int(B)
 		pair.Reset(0)
 		rr := ref.Eval(t, pair.Ref, B)
-		if rr.Unspec != "" {
+		if rr.Unspec != "" || rr.Tainted {
+			// a nil from a nil-safe access reached an operator: not settled
+			c.Count("unspecified_or_tainted", 1)
 			continue
 		}
 		// black box + hook, unoptimized
